@@ -455,6 +455,11 @@ Section Topo.
                       then compute_indegrees_to_depth F pgen
                              (mkT (t_indeg st) (t_states st) (t_explore st) (t_indegq st) (t_topo st) pgen)
                       else Ok st);;
+              (* exploring deeper may have revealed that the parent is hidden *)
+              if N.ltb pgen (t_min_gen st)
+                 && match m_get (t_states st1) p with Some f => f_unint f | None => false end
+              then expand_parents r st1
+              else
               match m_get (t_indeg st1) p with
               | None => Err tt
               | Some i =>
